@@ -13,6 +13,7 @@ import (
 
 type SpecEnv struct {
 	c     *Ctx
+	cur   *State // inside old(): the current state (locals that did not exist at entry keep their current value)
 	st    *State
 	old   *State
 	bound map[string]Val
@@ -252,9 +253,19 @@ func (env *SpecEnv) trIdent(name string) Val {
 	if v, ok := env.st.ghost[name]; ok {
 		return v
 	}
+	if strings.HasPrefix(name, "spawned_") {
+		return Val{T: "0", S: "Int"}
+	}
 	if obj, ok := env.lookupGo(name); ok {
 		switch o := obj.(type) {
 		case *types.Var:
+			if env.cur != nil {
+				_, inVars := env.st.vars[o]
+				_, inCells := env.st.cells[o]
+				if !inVars && !inCells {
+					return c.readVar(env.cur, o)
+				}
+			}
 			return c.readVar(env.st, o)
 		case *types.Const:
 			return env.constToVal(o)
@@ -596,6 +607,7 @@ func (env *SpecEnv) trCall(e *SExpr) Val {
 			env.fail("old() not available here: %s", e)
 		}
 		n := *env
+		n.cur = env.st
 		n.st = env.old
 		n.old = nil
 		// bound names that denote entry values stay; results are not visible in old()
@@ -630,6 +642,31 @@ func (env *SpecEnv) trCall(e *SExpr) Val {
 		x := env.tr(args[0])
 		env.want(x, "Iface", args[0])
 		return Val{T: "(iref " + x.T + ")", S: "Int"}
+	case "boxptr":
+		// boxptr(x, "pkgname.Type"): the interface value holding the pointer x of type *pkgname.Type
+		x := env.tr(args[0])
+		if args[1].Op != "str" {
+			env.fail("boxptr needs a type name string")
+		}
+		t := c.eng.lookupNamed(args[1].S)
+		if t == nil {
+			env.fail("boxptr: unknown type %s", args[1].S)
+		}
+		return Val{T: fmt.Sprintf("(mkI %d %s)", c.eng.typeTag(types.NewPointer(t)), x.T), S: "Iface"}
+	case "ptr":
+		// ptr(x, "pkgname.Type"): view the reference x as a *pkgname.Type (for field selection)
+		x := env.tr(args[0])
+		if x.S == "Iface" {
+			x = Val{T: "(iref " + x.T + ")", S: "Int"}
+		}
+		if args[1].Op != "str" {
+			env.fail("ptr needs a type name string")
+		}
+		t := c.eng.lookupNamed(args[1].S)
+		if t == nil {
+			env.fail("ptr: unknown type %s", args[1].S)
+		}
+		return Val{T: x.T, S: "Int", GT: types.NewPointer(t)}
 	case "zerov":
 		// zerov("Sort"): the Go zero value of that sort
 		if args[0].Op != "str" {
